@@ -104,12 +104,13 @@ def notStore (pol : Nat) (c : Bytes) : Bool :=
   | .error _ => true
 
 /-- raw value: the content (value and extended header) does not begin with the NVAR signature, or
-    it does and fiano does not take it for a store (`notStore` — this is where a store that sits in
-    an entry WITH an extended header belongs: fiano hands content + extended header to
-    `NewNVarStore`, which normally fails on the trailing header bytes; round 3, wp-c10c);
+    the entry has an extended header (since fixes/C10-nested-ext-header.diff fiano never reads the
+    content of such an entry as a store — EVERY store behind an extended header is a raw value of the
+    grammar; wp-nvfix), or it begins with the signature and fiano does not take it for a store
+    (`notStore`: `NewNVarStore` refuses it);
     store value: no extended header, same erase polarity as the parent -/
 def valueOk (pol : Nat) (x : Option Ext) : NValue → Bool
-  | .raw b => (b ++ extSer x).take 4 != sig || notStore pol (b ++ extSer x)
+  | .raw b => (b ++ extSer x).take 4 != sig || x.isSome || notStore pol (b ++ extSer x)
   | .store s => x.isNone && s.pol == pol
 
 def NEntry.valueOk (pol : Nat) : NEntry → Bool
